@@ -61,6 +61,9 @@ def base_types(u):
     u.fn('src/base.rs', 'new', impl='impl EncodingPacket', ret='r', ensures=['r.payload_id == payload_id', 'r.data == data'])
     u.raw('}')
     u.struct('src/symbol.rs', 'Symbol')
+    u.raw('impl Symbol {')
+    u.fn('src/symbol.rs', 'as_bytes', impl='impl Symbol', ret='r', ensures=['r@ == self.value@'])
+    u.raw('}')
 
 
 def build():
@@ -89,6 +92,10 @@ def build():
          requires=['dest@.len() == intermediate_symbols.symbol_size'],
          ensures=['final(dest)@ == enc_of(source_block_symbols as int, *intermediate_symbols, source_tuple)', 'final(dest)@.len() == old(dest)@.len()'])
     u.trust('enc_into writes Enc[K\', C, tuple] (a function of K, the slab and the tuple) into dest: its index sequence is decided by K-ENCIDX / V-SLAB, here assumed')
+    u.raw('''pub assume_specification<T: Clone>[ <[T]>::to_vec ](s: &[T]) -> (r: Vec<T>)
+    ensures r@.len() == s@.len(), forall |i: int| 0 <= i < s@.len() ==> cloned::<T>(#[trigger] s@[i], r@[i]);
+''', label='rule S1: <[u8]>::to_vec copies the slice')
+    u.trust('assume_specification <[u8]>::to_vec: the returned vector holds the same bytes (std documented behaviour)')
     u.raw('impl SourceBlockEncoder {')
     u.fn('src/encoder.rs', 'repair_packets', impl='impl SourceBlockEncoder', ret='result',
          requires=['enc_wf(*self)', 'self.source_symbols@.len() + start_repair_symbol_id as int + packets as int <= 16777216'],
@@ -102,11 +109,16 @@ def build():
                    ' symbol_size == self.intermediate_symbols.symbol_size,'
                    ' result@.len() == i as int,'
                    ' forall |k: int| 0 <= k < i as int ==> packet_is(#[trigger] result@[k], repair_packet_spec(*self, start_repair_symbol_id as int + k)),'})
-    u.fn('src/encoder.rs', 'source_packets', impl='impl SourceBlockEncoder', ret='r', external_body=True,
+    u.fn('src/encoder.rs', 'source_packets', impl='impl SourceBlockEncoder', ret='r', rules=['D9'],
          requires=['enc_wf(*self)'],
          ensures=['r@.len() == self.source_symbols@.len()',
-                  'forall |i: int| 0 <= i < r@.len() ==> packet_is(#[trigger] r@[i], source_packet_spec(*self, i))'])
-    u.trust('SourceBlockEncoder::source_packets (iterator map/collect): external; assumed to return K packets, packet i = (block number, ESI i, source symbol i)')
+                  'forall |i: int| 0 <= i < r@.len() ==> packet_is(#[trigger] r@[i], source_packet_spec(*self, i))'],
+         opt_subst=[('let mut verif_out = Vec::new();', 'let mut verif_out: Vec<EncodingPacket> = Vec::new();', 'type-annotation')],
+         loops={0: {'spec': 'invariant enc_wf(*self), verif_hi == self.source_symbols@.len(), verif_k <= verif_hi, verif_out@.len() == verif_k as int,'
+                            ' forall |j: int| 0 <= j < verif_k as int ==> packet_is(#[trigger] verif_out@[j], source_packet_spec(*self, j)), decreases verif_hi - verif_k,',
+                    'body_top': 'let ghost verif_prev = verif_out@;',
+                    'body_bottom': 'proof { let j = verif_k as int - 1; assert(verif_out@[j].data@ =~= self.source_symbols@[j].value@);'
+                                   ' assert forall |q: int| 0 <= q < j implies packet_is(#[trigger] verif_out@[q], source_packet_spec(*self, q)) by { assert(verif_out@[q] == verif_prev[q]); } }'}})
     u.raw('}')
     # ---- the per-object packet list (C18): block by block in order, K source packets then the requested repair packets
     u.struct('src/base.rs', 'ObjectTransmissionInformation')
